@@ -231,11 +231,10 @@ def C20(ctx):
     ctx.rule("R.self-recursion", "no parser or helper calls itself on every path", 0)
     RBI.check_self_recursion(ctx, uf, [f for f in uf.functions if f.uq.startswith("frg::")])
     RBI.check_self_recursion(ctx, us, [f for f in us.functions if f.uq.startswith("frg::")])
-    ctx.rule("R.loop-progress", "every loop nest of printf_format advances the cursor (or its look-ahead counter)", 1)
+    ctx.rule("R.loop-progress", "every loop of printf_format modifies a variable its condition depends on (the cursor, or the look-ahead counter) on every path around it", 3)
     for f in uf.fns(uq="frg::printf_format"):
         sd = [p["d"] for p in f.params() if p["n"] == "s"][0]
-        RP.check_loop_progress(ctx, "R.loop-progress", f, lambda n: (n.kind in ("UnaryOperator", "CompoundAssignOperator")
-                               and n.get("op") in ("++", "+=")))
+        RP.check_loop_progress(ctx, "R.loop-progress", f, None, default_vars=(sd,))
     return ("Structural clauses of C20. Not decided: absence of all undefined behaviour; bounds of the caller's arg_list.")
 
 
